@@ -1,0 +1,61 @@
+//go:build verif
+
+package wallet
+
+import (
+	"github.com/btcsuite/btcwallet/waddrmgr"
+	"github.com/btcsuite/btcwallet/wallet/txauthor"
+	"github.com/btcsuite/btcwallet/walletdb"
+	"github.com/btcsuite/btcwallet/wtxmgr"
+)
+
+// The functions in this file exist only under the "verif" build tag. They
+// expose, unchanged, the pieces of createtx.go that sit between the wallet's
+// entry points and txauthor.NewUnsignedTransaction, so that a harness can run
+// them on inputs of its own choosing.
+
+// VerifMakeInputSource is makeInputSource: the accumulating input source of
+// automatic coin selection over an arranged coin list.
+func VerifMakeInputSource(eligible []Coin) txauthor.InputSource {
+	return makeInputSource(eligible)
+}
+
+// VerifConstantInputSource is constantInputSource: the input source of an
+// explicit selection (always the whole selection).
+func VerifConstantInputSource(eligible []wtxmgr.Credit) txauthor.InputSource {
+	return constantInputSource(eligible)
+}
+
+// VerifChangeSource runs addrMgrWithChangeSource for the given change scope
+// and account inside a database transaction that is rolled back, and reports
+// the script size the change source declares to txauthor together with one
+// script its NewScript produces.
+func (w *Wallet) VerifChangeSource(changeKeyScope *waddrmgr.KeyScope,
+	account uint32) (int, []byte, error) {
+
+	w.newAddrMtx.Lock()
+	defer w.newAddrMtx.Unlock()
+
+	var (
+		size   int
+		script []byte
+	)
+	err := walletdb.Update(w.db, func(dbtx walletdb.ReadWriteTx) error {
+		_, changeSource, err := w.addrMgrWithChangeSource(
+			dbtx, changeKeyScope, account,
+		)
+		if err != nil {
+			return err
+		}
+		size = changeSource.ScriptSize
+		script, err = changeSource.NewScript()
+		if err != nil {
+			return err
+		}
+		return walletdb.ErrDryRunRollBack
+	})
+	if err != nil && err != walletdb.ErrDryRunRollBack {
+		return 0, nil, err
+	}
+	return size, script, nil
+}
